@@ -591,6 +591,9 @@ mut("C16", "deferred-failure-count-also-runs-on-h1-success", PS,
     "		server.metricsRequestsTotalInc(\"0\", \"\")\n		return\n	}\n\n	// client hello stored",
     "		counted = false\n		return\n	}\n\n	// client hello stored")
 
+mut("C14", "undo-D22", CW,
+    "		if bytes.Equal(certPEM, again) {\n			return certPEM, keyPEM, nil\n		}\n", "		if bytes.Equal(certPEM, again) || len(again) > 0 {\n			return certPEM, keyPEM, nil\n		}\n")
+
 # ---- C08 (undo the three repairs)
 mut("C08", "undo-D12", "pkg/reverseproxy/handler.go",
     "	r.Out.URL.RawQuery = r.In.URL.RawQuery\n", "")
